@@ -22,15 +22,13 @@ The two `toml::Map` configurations live in two builds of the harness.  The main 
 (`EXTRA_HARNESS["po"]`, feature `po` = toml/preserve_order), obtained in one batch on first use and
 cached by case line — so map_ordered cases count for the verdict exactly like all others.
 
-Known class: a history is in the placeholder class when some call meets an `Item::None` entry left
-behind by an earlier `&mut c[k]` in a way that shows it (decided by the extracted model classifier,
-command `cls`, the same definition the Coq theorems exclude: Model/Containers.v `tsens` / `first_sens`).
-  C16-placeholder-residue   : insert / insert_formatted / remove / remove_entry / entry (or_insert, insert, remove) /
-                              key / get_or_insert / index-assign / extend / owned into_iter applied to a key (or a
-                              container) that currently holds a placeholder (Table, InlineTable, TableLike view).
-The former class C16-tablelike-placeholder (DESIGN.md F11: `impl TableLike for InlineTable` did not filter
-placeholders in iter/iter_mut/get/get_mut) was repaired in /repo (commit acb0168); its witnesses stay in
-WITNESSES below as permanent cases and now have to satisfy the oracle like every other case.
+Known classes: none.  The former class C16-placeholder-residue (write / entry paths treated an `Item::None`
+placeholder left by `&mut c[k]` as a real entry: insert / remove returned Some(Item::None), entry().or_insert stored
+nothing, Table::into_iter yielded it, key() was Some, InlineTable::entry turned it into `{}`, get_or_insert panicked,
+the position was kept) was repaired in /repo (Table / InlineTable::remove_placeholder at the head of every write and
+entry path, filters in key() / key_mut() / IntoIterator for Table), like C16-tablelike-placeholder (DESIGN.md F11,
+commit acb0168) before it.  The witnesses of both stay in WITNESSES below as permanent cases and have to satisfy
+the oracle like every other case; the model command `cls` answers `none` for every history.
 """
 import itertools
 import common
@@ -44,8 +42,9 @@ HARNESS = {"bin": "c16"}
 EXTRA_HARNESS = {"po": ("release", ("po",))}
 EXTRA_ORACLE = ["po"]     # every other kind is also judged on the preserve_order build (the feature must not matter)
 THEOREMS = [
-    "C16_table / C16_inline / C16_inline_tablelike: forall h, touches_placeholder kd h = false -> outputs and final observation of the model = those of the reference ordered map",
-    "C16_table_refuted / C16_inline_refuted / C16_inline_tablelike_refuted: concrete histories in the class (write/entry paths on a placeholder key) on which they differ",
+    "C16_table / C16_inline / C16_inline_tablelike: forall h (no exclusion), outputs and final observation of the model = those of the reference ordered map",
+    "C16_table_regression / C16_inline_regression / C16_inline_tablelike_regression: the former counterexamples (write/entry paths on a placeholder key) now agree with the reference",
+    "C16_placeholder_calls: every call made in any reachable state answers as the reference does on the real entries",
     "C16_array / C16_aot / C16_map_sorted / C16_map_ordered: forall h, outputs and final observation of the model = reference",
     "C16_placeholder: len/is_empty/iter/get/contains_key/printed entries of Table, InlineTable and the TableLike view of InlineTable ignore Item::None entries, in every state",
 ]
@@ -511,8 +510,7 @@ def oracle(case, impl_line):
 
 
 def known_class(case, impl_line):
-    c = _cls(case)
-    return c if c.startswith("C16-") else None
+    return None      # no known class is left (C16-placeholder-residue and C16-tablelike-placeholder are repaired)
 
 
 def nontrivial(case, impl_line):
@@ -521,14 +519,13 @@ def nontrivial(case, impl_line):
 
 def extra_coverage(cases, impl, model):
     kinds = {}
-    in_class = 0
+    with_placeholder = 0
     for c in cases:
         k = c.args[0].decode()
         kinds[k] = kinds.get(k, 0) + 1
-    for c in cases:
-        if c.args[0].decode() in TABLELIKE and _cls(c) != "none":
-            in_class += 1
-    return {"histories_per_container": kinds, "histories_in_placeholder_class": in_class,
+        if k in TABLELIKE and "idxm," in c.args[1].decode():
+            with_placeholder += 1
+    return {"histories_per_container": kinds, "histories_creating_a_placeholder": with_placeholder,
             "map_ordered_cases_run_on_preserve_order_build": len(_po_cache)}
 
 
